@@ -197,6 +197,63 @@ class _Fake:
         raise FakeGap(f"{type(self).__name__}.{name} is not faked")
 
 
+class LockHang(BaseException):
+    """an operation tries to take the channel lock while it is still held and nobody is left to release it: with a real
+    threading.Lock / asyncio.Lock the call would block for ever (the harness runs one operation at a time)"""
+
+
+class GuardLock:
+    """stands for the threading.Lock of Channel.channel_lock (channel_lock=True): same protocol, but an acquire that would block
+    raises LockHang instead of blocking — deterministic, no wall clock"""
+
+    def __init__(self):
+        self._held = False
+
+    def acquire(self, blocking=True, timeout=-1):
+        if self._held:
+            raise LockHang()
+        self._held = True
+        return True
+
+    def release(self):
+        if not self._held:
+            raise RuntimeError("release unlocked lock")
+        self._held = False
+
+    def locked(self):
+        return self._held
+
+    def __enter__(self):
+        self.acquire()
+        return True
+
+    def __exit__(self, *a):
+        self.release()
+
+
+class AGuardLock(GuardLock):
+    """the asyncio.Lock twin"""
+
+    async def acquire(self):           # noqa
+        return GuardLock.acquire(self)
+
+    async def __aenter__(self):
+        GuardLock.acquire(self)
+        return None
+
+    async def __aexit__(self, *a):
+        self.release()
+
+
+def guard_channel_lock(conn):
+    """replace the channel lock of a connection built with channel_lock=True by its guarded twin"""
+    import threading
+    if conn.channel.channel_lock is None:
+        raise RuntimeError("connection was not built with channel_lock=True")
+    conn.channel.channel_lock = GuardLock() if isinstance(conn.channel.channel_lock, type(threading.Lock())) else AGuardLock()
+    return conn
+
+
 class Link:
     """state of the faked library session + the script of outcomes"""
 
@@ -691,7 +748,7 @@ def classify_exc(e):
     from scrapli import exceptions as X
     if isinstance(e, FakeGap):
         raise e
-    if isinstance(e, Starved):
+    if isinstance(e, (Starved, LockHang)):
         return "hang"
     if isinstance(e, WouldBlock):
         return "block"
